@@ -123,7 +123,7 @@ package iterable
 //@    forall(n, *rlItem[K, V], im.owns(n) ==>
 //@        n.refCnt >= 0 && (n.state == rlLast || n.state == rlOk || n.state == rlDeleted) &&
 //@        (n.state == rlLast ==> n == im.last) && (n.state == rlDeleted ==> n.refCnt > 0) &&
-//@        n.ord <= im.last.ord && im.head.ord <= n.ord &&
+//@        n.ord <= im.last.ord && im.head.ord <= n.ord && (n != im.last ==> n.ord < im.last.ord) &&
 //@        (n.state == rlOk ==> has(im.vals, n.key) && im.vals[n.key] == n), n.owner) &&
 //@    forall(n, *rlItem[K, V], im.owns(n) && n != im.last ==> im.owns(n.next) && n.next.prev == n && n.ord < n.next.ord, n.next) &&
 //@    forall(n, *rlItem[K, V], im.owns(n) && n != im.head ==> im.owns(n.prev) && n.prev.next == n, n.prev) &&
@@ -180,6 +180,7 @@ package iterable
 //@   ensures old(has(im.vals, k)) ==> r0 != nil && has(im.vals, k) && im.vals[k] == old(im.vals[k]) && im.aval(k) == old(im.aval(k)) && im.aord(k) == old(im.aord(k)) && len(im.vals) == old(len(im.vals))
 //@   ensures !old(has(im.vals, k)) ==> r0 == nil && has(im.vals, k) && im.aval(k) == v && len(im.vals) == old(len(im.vals)) + 1 && forall(j, K, j != k && has(im.vals, j) ==> im.aord(j) < im.aord(k))
 //@   ensures !old(has(im.vals, k)) ==> im.vals[k] == old(im.last)
+//@   ensures forall(n, *rlItem[K, V], im.owns(n) && !old(im.owns(n)) ==> n == im.last && n.refCnt == 0, n.owner)
 
 //@ func (im *Map[K, V]) Get(k K) (V, bool)
 //@   props C10 C11
@@ -244,6 +245,12 @@ package iterable
 //@   modifies im.head, p.refCnt, p.val, p.state, p.next, p.prev, p.owner, p.prev.next, p.next.prev
 //@   ensures im.wf() && im.moved(p, nil)
 
+// no open iterator: nothing is referenced, hence (by wf) nothing removed is retained - the list is the live entries plus the sentinel
+//@ pred (im *Map[K, V]) quiet() = forall(n, *rlItem[K, V], im.owns(n) ==> n.refCnt == 0, n.owner)
+
+// the abstract view (live keys, their values and stamps) is exactly as before
+//@ pred (im *Map[K, V]) viewKept() = forall(j, K, has(im.vals, j) == old(has(im.vals, j)) && (has(im.vals, j) ==> im.vals[j] == old(im.vals[j]) && im.aval(j) == old(im.aval(j)) && im.aord(j) == old(im.aord(j))))
+
 // ---- the map's iterator: position = ord of the node it is parked on ----
 //@ pred (it *mapIterator[K, V]) valid() = it != nil && it.im != nil && it.im.wf() && it.im.holds(it.ptr)
 // no live key has its stamp in [lo, hi)
@@ -254,7 +261,7 @@ package iterable
 //@   requires it.valid() && it.im.room4()
 //@   modifies it.ptr, it.im.head, each(n, *rlItem[K, V], n.owner == it.im, n.refCnt, n.val, n.state, n.next, n.prev, n.owner)
 //@   ensures it.valid() && it.im == old(it.im) && it.im.moved(old(it.ptr), it.ptr) && it.ptr.ord >= old(it.ptr.ord)
-//@   ensures r0 == (it.ptr.state == rlOk) && it.im.noneIn(old(it.ptr.ord), it.ptr.ord)
+//@   ensures r0 == (it.ptr.state == rlOk) && it.im.noneIn(old(it.ptr.ord), it.ptr.ord) && it.im.viewKept()
 //@   ensures !r0 ==> it.ptr == it.im.last
 
 //@ func (it *mapIterator[K, V]) Next() (MapEntry[K, V], bool)
@@ -262,6 +269,7 @@ package iterable
 //@   requires it.valid() && it.im.room4()
 //@   modifies it.ptr, it.im.head, each(n, *rlItem[K, V], n.owner == it.im, n.refCnt, n.val, n.state, n.next, n.prev, n.owner)
 //@   ensures it.valid() && it.im == old(it.im) && it.im.moved(old(it.ptr), it.ptr) && it.ptr.ord >= old(it.ptr.ord)
+//@   ensures it.im.viewKept()
 //@   ensures r1 ==> has(it.im.vals, r0.Key) && r0.Value == it.im.aval(r0.Key) && old(it.ptr.ord) <= it.im.aord(r0.Key) && it.im.aord(r0.Key) < it.ptr.ord
 //@   ensures r1 ==> it.im.noneIn(old(it.ptr.ord), it.im.aord(r0.Key)) && it.im.noneIn(it.im.aord(r0.Key) + 1, it.ptr.ord)
 //@   ensures !r1 ==> it.im.noneIn(old(it.ptr.ord), it.ptr.ord + 1) && it.ptr == it.im.last
@@ -270,7 +278,7 @@ package iterable
 //@   props C10 C11
 //@   requires it.valid()
 //@   modifies it.ptr, it.im.head, it.ptr.refCnt, it.ptr.val, it.ptr.state, it.ptr.next, it.ptr.prev, it.ptr.owner, it.ptr.prev.next, it.ptr.next.prev
-//@   ensures r0 == nil && it.ptr == nil && it.im == old(it.im) && it.im.wf() && it.im.moved(old(it.ptr), nil)
+//@   ensures r0 == nil && it.ptr == nil && it.im == old(it.im) && it.im.wf() && it.im.moved(old(it.ptr), nil) && it.im.viewKept()
 
 //@ func (im *Map[K, V]) First() (K, bool)
 //@   props C10 C11
@@ -278,6 +286,7 @@ package iterable
 //@   requires im.wf() && im.small()
 //@   modifies im.head, each(n, *rlItem[K, V], n.owner == im, n.refCnt, n.val, n.state, n.next, n.prev, n.owner)
 //@   ensures im.wf()
-//@   ensures im.moved(nil, nil)
+//@   ensures im.moved(nil, nil) && im.viewKept()
 //@   ensures r1 ==> has(im.vals, r0) && forall(j, K, has(im.vals, j) ==> im.aord(r0) <= im.aord(j))
 //@   ensures !r1 ==> forall(j, K, !has(im.vals, j))
+//@   ensures r1 == (len(im.vals) > 0)
